@@ -1580,9 +1580,13 @@ func (mvcc *MVCCLevelDB) ScanLock(startKey, endKey []byte, maxTS uint64) ([]*kvr
 		}
 		if ok && dec.lock.startTS <= maxTS {
 			locks = append(locks, &kvrpcpb.LockInfo{
-				PrimaryLock: dec.lock.primary,
-				LockVersion: dec.lock.startTS,
-				Key:         currKey,
+				PrimaryLock:     dec.lock.primary,
+				LockVersion:     dec.lock.startTS,
+				Key:             currKey,
+				LockTtl:         dec.lock.ttl,
+				TxnSize:         dec.lock.txnSize,
+				LockType:        dec.lock.op,
+				LockForUpdateTs: dec.lock.forUpdateTS,
 			})
 		}
 
